@@ -16,14 +16,26 @@ import sympy as sp
 
 def main():
     req = json.load(sys.stdin)
-    shim = types.SimpleNamespace(log=sp.log, exp=sp.exp, abs=sp.Abs, absolute=sp.Abs, sign=sp.sign, pi=sp.pi,
-                                 ndarray=object, logical_not=lambda b: 1 - b, inf=sp.oo)
+    def _where(c, a, b):
+        return sp.Piecewise((a, c), (b, True))
+    shim = types.SimpleNamespace(log=sp.log, exp=sp.exp, abs=sp.Abs, absolute=sp.Abs, fabs=sp.Abs, sign=sp.sign, pi=sp.pi,
+                                 e=sp.E, ndarray=object, logical_not=lambda b: 1 - b, inf=sp.oo, sqrt=sp.sqrt,
+                                 square=lambda a: a ** 2, power=lambda a, b: a ** b, float_power=lambda a, b: a ** b,
+                                 log1p=lambda a: sp.log(1 + a), expm1=lambda a: sp.exp(a) - 1,
+                                 maximum=sp.Max, minimum=sp.Min, fmax=sp.Max, fmin=sp.Min, where=_where,
+                                 clip=lambda a, a_min, a_max: sp.Min(sp.Max(a, a_min), a_max),
+                                 negative=lambda a: -a, reciprocal=lambda a: 1 / a, add=lambda a, b: a + b,
+                                 subtract=lambda a, b: a - b, multiply=lambda a, b: a * b, divide=lambda a, b: a / b,
+                                 true_divide=lambda a, b: a / b, asarray=lambda a: a, float64=lambda a: a)
     src_lines = []
     for ln in req["source"].split("\n"):
-        if ln.startswith("import numpy") or ln.startswith("import pyttb") or ln.startswith("from __future__"):
+        if ln.startswith("import numpy") or ln.startswith("import pyttb") or ln.startswith("from __future__") \
+                or ln.startswith("import math"):
             continue
         src_lines.append(ln)
-    ns = {"np": shim, "ttb": types.SimpleNamespace(tensor=object)}
+    ns = {"np": shim, "ttb": types.SimpleNamespace(tensor=object),
+          "math": types.SimpleNamespace(pi=sp.pi, e=sp.E, log=sp.log, exp=sp.exp, sqrt=sp.sqrt, fabs=sp.Abs,
+                                        pow=lambda a, b: a ** b, inf=sp.oo)}
     exec(compile("\n".join(src_lines), "handles.py", "exec"), ns)
     x, m, p = sp.symbols("x m p", real=True)
     cache = {}
@@ -32,8 +44,11 @@ def main():
         try:
             if name not in cache:
                 fn = ns[name]
-                nargs = fn.__code__.co_argcount
-                expr = fn(x, m, p) if nargs == 3 else fn(x, m)
+                nargs = fn.__code__.co_argcount + fn.__code__.co_kwonlyargcount
+                if nargs == 3 and fn.__code__.co_kwonlyargcount == 1:
+                    expr = fn(x, m, **{fn.__code__.co_varnames[2]: p})
+                else:
+                    expr = fn(x, m, p) if nargs == 3 else fn(x, m)
                 cache[name] = sp.lambdify((x, p, m), sp.diff(expr, m), modules="mpmath")
             val = cache[name](sp.Float(xv, 40), sp.Float(0.0 if pv is None else pv, 40), sp.Float(mv, 40))
             out.append(repr(float(val)))
